@@ -122,8 +122,86 @@ def fold_const_args(db, entry):
     return entry
 
 
+def _pos_key(span):
+    m = re.match(r"^(.*?):(\d+):(\d+)", span or "")
+    return (m.group(1), int(m.group(2)), int(m.group(3))) if m else (span or "", 0, 0)
+
+
+def mir_write_str_entries(db, body, tyname):
+    """plain-literal writer entries for `Formatter::write_str(lit)` / `write_char(c)` calls in a Display impl and its closures"""
+    from .rules.c10 import _const_str_arg
+    out = []
+    for d, b in db.bodies.items():
+        if d != body.defp and not d.startswith(body.defp + "::"):
+            continue
+        for bb, t in b.calls():
+            c = t["callee"]
+            if not c or c["name"] not in ("write_str", "write_char") or "fmt" not in (c.get("path") or ""):
+                continue
+            args = t["args"] or []
+            if len(args) < 2:
+                continue
+            a = args[1]
+            v = None
+            if a.get("k") == "const":
+                v = a.get("str") or a.get("pstr") or a.get("char")
+            if v is None:
+                v = _const_str_arg(b, a)
+            if v is None and a.get("k") in ("copy", "move"):
+                l = a["place"]["l"]
+                for blk in b.blocks:
+                    for st in blk["stmts"]:
+                        if st["k"] == "assign" and st["place"]["l"] == l and not st["place"]["p"]:
+                            op = st["rv"].get("op") or {}
+                            v = v or op.get("pstr") or op.get("char") or op.get("str")
+            if v is None:
+                continue
+            f = {"mod": "", "impl_self": tyname, "impl_trait": "fmt::Display", "fns": ["fmt"], "arms": [],
+                 "pieces": [{"lit": v}], "args": [], "macros": ["write!"], "span": t["span"], "callsite": t["span"]}
+            out.append(WriterEntry(f))
+    return out
+
+
+def mir_literal_writers(ctx, body, tyname):
+    """writer entries of a Display impl that prints fixed text without a format macro
+    (`f.write_str(match self { Side::Buy => "BUY", .. })`, `f.pad("..")`): one entry per path, made of the literals
+    written to the formatter on it, tagged with the variant of `self` the path decided.  None when a path writes
+    anything that is not a literal."""
+    try:
+        res = ctx.walker(max_depth=2).walk(body)
+    except Exception:
+        return None
+    out = []
+    for r in res:
+        if r.kind != "return":
+            continue
+        text = ""
+        span = body.span
+        for e in r.trace:
+            if e[0] != "call":
+                continue
+            last = e[1].split("::")[-1]
+            if e[1].startswith(("std::fmt::Formatter::", "core::fmt::Formatter::")) and last in ("write_str", "pad", "write_char"):
+                a = e[2][1] if len(e[2]) > 1 else None
+                l = lit_of(a)
+                if l is None and isinstance(a, tuple) and a[0] == "int" and last == "write_char":
+                    l = chr(a[1])
+                if l is None:
+                    return None
+                text += l
+                span = e[5] or span
+            else:
+                return None
+        v = r.facts.variant.get(("val", ("obj", ("param", 1))))
+        f = {"mod": "", "impl_self": tyname, "impl_trait": "fmt::Display", "fns": ["fmt"],
+             "arms": ["%s::%s" % (tyname, v)] if v else [], "pieces": [{"lit": text}], "args": [],
+             "macros": ["write!"], "span": span, "callsite": span}
+        out.append(WriterEntry(f))
+    return out or None
+
+
 class Writers:
-    def __init__(self, db):
+    def __init__(self, db, ctx=None):
         self.by_type = {}
         for f in db.fmt:
             if not f["impl_trait"].endswith("Display") or f["fns"][:1] != ["fmt"]:
@@ -132,6 +210,23 @@ class Writers:
                 continue
             t = base_type(f["impl_self"])
             self.by_type.setdefault(t, []).append(fold_const_args(db, WriterEntry(f)))
+        # literals written straight to the formatter (`f.write_str(";ids=[")`, `f.write_char(',')`) next to the format
+        # templates of the same impl are part of its output: plain-literal entries, merged in source order
+        for t in list(self.by_type):
+            extra = []
+            for b in db.bodies.values():
+                if b.name == "fmt" and b.impl_trait and "fmt::Display" in b.impl_trait and b.kind != "Closure" and base_type(b.impl_self or "") == t:
+                    extra += mir_write_str_entries(db, b, t)
+            if extra:
+                self.by_type[t] = sorted(self.by_type[t] + extra, key=lambda e: _pos_key(e.callsite))
+        if ctx is not None:
+            for b in db.bodies.values():
+                if b.name == "fmt" and b.impl_trait and "fmt::Display" in b.impl_trait and b.kind != "Closure":
+                    t = base_type(b.impl_self or "")
+                    if t and t not in self.by_type:
+                        ents = mir_literal_writers(ctx, b, t)
+                        if ents:
+                            self.by_type[t] = ents
         self.nested = {}
         for f in db.fmt:
             if f["impl_trait"].endswith("Display") and f["fns"][:1] == ["fmt"] and "format!" in f["macros"]:
